@@ -16,7 +16,10 @@ theorem ran_only_if_admitted (fo fc io : Bool) (jobs : List Job) (sched : List N
     (i, Outcome.ran) ∈ c.shared.events →
     ∃ sc l, jobs[i]? = some (.call sc) ∧ c.locals[i]? = some l ∧ sc.prevent = false ∧
       (l.sawOpen = some false ∨ (l.sawOpen = some true ∧ sc.allow = true ∧ fo = false)) := by
-  sorry
+  intro c hr
+  have h := ccall_reach fo fc io jobs sched
+  obtain ⟨sc, l, h1, h2, h3, h4, _⟩ := ccall_Inv_ran fo jobs _ h.1 h.2 i hr
+  exact ⟨sc, l, h1, h2, h3, h4⟩
 
 /-- what a call read is what the circuit was: a call that read "closed" did so while ForceOpen was off (and the flag
     was false or ForcedClosed on) — stated as: with ForceOpen set, no call ever reads closed and NO run function is
@@ -24,7 +27,12 @@ theorem ran_only_if_admitted (fo fc io : Bool) (jobs : List Job) (sched : List N
 theorem force_open_sheds_every_call (fc io : Bool) (jobs : List Job) (sched : List Nat) (i : Nat) :
     let c := run sys (init true fc io jobs) sched
     (i, Outcome.ran) ∉ c.shared.events := by
-  sorry
+  intro c hr
+  have h := ccall_reach true fc io jobs sched
+  obtain ⟨sc, l, _, _, _, h4, h5⟩ := ccall_Inv_ran true jobs _ h.1 h.2 i hr
+  rcases h4 with h4 | ⟨_, _, h4⟩
+  · exact absurd (h5 h4) (by decide)
+  · exact absurd h4 (by decide)
 
 /-- OPEN AND NOT ADMITTED ⇒ NEVER RUN: from an open circuit (not forced closed) whose closer admits nobody, no run
     function is invoked under any schedule, by any number of callers, racing any number of OpenCircuit calls — and
@@ -33,7 +41,9 @@ theorem open_circuit_sheds_all (fo : Bool) (jobs : List Job) (sched : List Nat)
     (hadm : closerAdmitsNone jobs = true) (hnc : jobs.all (· != .close) = true) :
     let c := run sys (init fo false true jobs) sched
     (∀ i, (i, Outcome.ran) ∉ c.shared.events) ∧ c.shared.t.isOpen = true := by
-  sorry
+  intro c
+  have h := ccall_AllShed_run _ (ccall_AllShed_init fo jobs hadm hnc) sched
+  exact ⟨h.2.2.1, h.2.1⟩
 
 /-- once open, open for good, when nothing can close it: the flag is monotone under every schedule -/
 theorem flag_monotone_without_closers (fo fc : Bool) (jobs : List Job) (s1 s2 : List Nat)
@@ -41,7 +51,8 @@ theorem flag_monotone_without_closers (fo fc : Bool) (jobs : List Job) (s1 s2 : 
     let c1 := run sys (init fo fc false jobs) s1
     let c2 := run sys c1 s2
     c1.shared.t.isOpen = true → c2.shared.t.isOpen = true := by
-  sorry
+  intro c1 c2 h1
+  exact ccall_NC_mono c1 (ccall_NC_run _ (ccall_NC_init fo fc false jobs hnc) s1) h1 s2
 
 /-- a completed opening has set the flag: when an OpenCircuit thread has returned (no ForcedClosed, nothing that
     closes), the circuit is open -/
@@ -49,7 +60,8 @@ theorem returned_open_means_open (fo : Bool) (jobs : List Job) (sched : List Nat
     (hnc : neverCloses jobs = true) :
     let c := run sys (init fo false false jobs) sched
     jobs[k]? = some .open → c.locals[k]? = some l → l.pc = .done → (c.shared.t.isOpen = true ∨ fo = true) := by
-  sorry
+  intro c hj hl hpc
+  exact ccall_OT_returned fo jobs sched k l hnc hj hl hpc
 
 /-- REAL-TIME SHEDDING: every call that STARTS after the circuit was opened is shed.  Whatever happened before
     (`s1`: any interleaving of callers, failing calls that open the circuit, OpenCircuit), if at that moment the
@@ -63,7 +75,8 @@ theorem calls_starting_after_open_are_shed (fo : Bool) (jobs : List Job) (s1 s2 
     (c1.shared.t.isOpen = true ∨ fo = true) → c1.locals[i]? = some l → notStarted l = true →
     (i, Outcome.ran) ∉ c2.shared.events ∧
     (∀ l2, c2.locals[i]? = some l2 → l2.pc = .done → (∃ sc, l.job = .call sc) → (i, Outcome.shed) ∈ c2.shared.events) := by
-  sorry
+  intro c1 c2 hopen hl hns
+  exact ccall_late_shed fo jobs s1 s2 i l hadm hnc hopen hl hns
 
 /-- each call decides exactly once: at most one outcome per thread at any instant, none for OpenCircuit /
     CloseCircuit threads, and exactly one once the call has returned -/
@@ -72,13 +85,16 @@ theorem one_outcome_per_call (fo fc io : Bool) (jobs : List Job) (sched : List N
     (c.shared.events.map (·.1)).Nodup ∧
     (∀ e ∈ c.shared.events, ∃ sc, jobs[e.1]? = some (.call sc)) ∧
     (∀ i sc l, jobs[i]? = some (.call sc) → c.locals[i]? = some l → l.pc = .done → (outcomeOf c i).isSome) := by
-  sorry
+  intro c
+  have h := ccall_reach fo fc io jobs sched
+  exact ccall_Inv_outcomes fo jobs _ h.1 h.2
 
 /-- the calls and transitions never deadlock: while some thread has not returned, some thread can step -/
 theorem calls_never_deadlock (fo fc io : Bool) (jobs : List Job) (sched : List Nat) :
     let c := run sys (init fo fc io jobs) sched
     allDone c = false → ∃ i l, c.locals[i]? = some l ∧ (step i c.shared l).isSome := by
-  sorry
+  intro c hnd
+  exact ccall_no_deadlock c (ccall_Hold_run _ (ccall_Hold_init fo fc io jobs) sched) hnd
 
 /-- non-vacuity: a caller that read "closed" before the opening still runs (admitted earlier); a caller starting
     after OpenCircuit returned is shed -/
